@@ -1032,6 +1032,16 @@ func c07Check(c *kit.Case, where string, n *c07Node, pods []*c07Pod, pre, post *
 	c.Count("ledger_checks", 1)
 }
 
+func c07PolOf(sh *c07Shape) apiext.GPUPartitionAllocatePolicy {
+	if sh.partSpec == nil {
+		return "node-honor"
+	}
+	if sh.partSpec.AllocatePolicy == "" {
+		return "default"
+	}
+	return sh.partSpec.AllocatePolicy
+}
+
 func c07Restrict(m map[schedulingv1alpha1.DeviceType]sets.Int) string {
 	if m == nil {
 		return "all"
@@ -1121,21 +1131,32 @@ func TestVerifC07Ledger(t *testing.T) {
 	pl := c07Plugin(t)
 	ctx := context.TODO()
 	kit.Run(t, kit.Config{Property: "C07", Unit: "ledger", Quick: 2500, Thorough: 100000,
-		Rule: "histories of 60-200 operations over 3-8 pod names on 1-2 nodes of a real nodeDeviceCache: inventory events (Device add/update/delete: unhealthy, zero, missing minors/types, changed totals), allocate+commit through Plugin.PreFilter+Reserve or AutopilotAllocator.Allocate+updateCacheUsed, Unreserve / forget / terminated / delete, duplicate and stale pod events, ghost pods; GPU (whole, fractional by percent or bytes, N shares, multi), RDMA, FPGA, combined and constrained (topology scope, VF, joint, ApplyForAll) requests; ledger oracle on every node after every operation; distinct = (request class, path, outcome, eligible-vs-wanted class, live pods, inventory class) and (event kind, pod state); non-trivial = case with a granted and a refused allocation and an inventory change while pods held devices"},
+		Rule: "histories of 60-200 operations over 3-8 pod names on 1-2 nodes of a real nodeDeviceCache: inventory events (Device add/update/delete: unhealthy, zero, missing minors/types, changed totals), allocate+commit through Plugin.PreFilter+Reserve or AutopilotAllocator.Allocate+updateCacheUsed, Unreserve / forget / terminated / delete, duplicate and stale pod events, ghost pods; GPU (whole, fractional by percent or bytes, N shares, multi), RDMA, FPGA, combined and constrained (topology scope, VF, joint, ApplyForAll, NUMA affinity) requests; 20 % of the cases with partitioned GPU nodes (built-in table by model label or table annotated on the Device, Honor or Prefer) and pods with/without a partition spec asking for 1/2/3/4/8 whole GPUs; ledger oracle on every node after every operation; distinct = (request class, path, outcome, eligible-vs-wanted class, live pods, inventory class) and (event kind, pod state); non-trivial = case with a granted and a refused allocation and an inventory change while pods held devices"},
 		func(c *kit.Case) {
 			r := c.R
 			cache := newNodeDeviceCache()
 			pl.nodeDeviceCache = cache
-			memBytes, memResize := r.Pct(25), r.Pct(15)
-			nodes := []*c07Node{c07GenNode(r, "n0", memBytes, memResize)}
+			memBytes, memResize, partitioned := r.Pct(25), r.Pct(15), r.Pct(20)
+			nodes := []*c07Node{c07GenNode(r, "n0", memBytes, memResize, partitioned)}
 			if r.Pct(40) {
-				nodes = append(nodes, c07GenNode(r, "n1", memBytes, memResize))
+				nodes = append(nodes, c07GenNode(r, "n1", memBytes, memResize, partitioned))
 			}
 			if memBytes {
 				c.Count("cases_with_gpu_memory_requests_in_bytes", 1)
 			}
 			if memResize {
 				c.Count("cases_with_gpu_memory_size_changes", 1)
+			}
+			if partitioned {
+				c.Count("cases_with_partitioned_nodes", 1)
+				for _, n := range nodes {
+					if n.part != "" {
+						c.Count("partitioned_nodes_table_by_"+n.part, 1)
+						if n.honor {
+							c.Count("partitioned_nodes_with_honor_policy", 1)
+						}
+					}
+				}
 			}
 			snaps := map[string]*c07Snap{}
 			npods := r.Range(3, 8)
@@ -1176,7 +1197,7 @@ func TestVerifC07Ledger(t *testing.T) {
 				n.crLive = true
 				n.lastCR = n.buildCR()
 				cache.onDeviceAdd(n.lastCR.DeepCopy())
-				c.Op("inventory %s add: topo=%v vf=%v %s", n.name, n.topo, n.vf, n.describe())
+				c.Op("inventory %s add: topo=%v vf=%v partitions=%q honor=%v labels=%v table=%s %s", n.name, n.topo, n.vf, n.part, n.honor, n.obj.Labels, n.tableJSON, n.describe())
 				snaps[n.name] = c07Observe(c, cache, n.name)
 			}
 			checkAll("initial inventory")
@@ -1502,6 +1523,9 @@ func TestVerifC07Ledger(t *testing.T) {
 						// served partition-wise or device-wise), the partitions of that size form one score class (so
 						// Restricted and BestEffort look at the same candidates) and every other requested type fits
 						c.Count("refusals_with_partitions_honored", 1)
+						if !freePartition && !n.mixedScore[wGPU.count] && restrict == nil && sh.hints == nil && sh.joint == nil {
+							c.Count("refusals_checked_against_free_partitions", 1)
+						}
 						if freePartition && !n.mixedScore[wGPU.count] && restrict == nil && sh.hints == nil && sh.joint == nil && c07OtherFit(typesSorted, sh, n, usedBefore) {
 							c.Fail("C07/allocate/refused-although-free-partition-exists", "node %s: request %s %s refused (%s) although the node's partition table has a partition of %d GPU(s) that are all healthy and unused; inventory %s", n.name, sh.class, c07RL(sh.requests), reason, wGPU.count, n.describe())
 						}
@@ -1509,7 +1533,15 @@ func TestVerifC07Ledger(t *testing.T) {
 							c.Count("converse_misses_partition_honored_refused_with_enough_single_devices", 1)
 						}
 						if freePartition {
-							c.Count("partition_converse_premise_held", 1)
+							// refused with a free partition, yet outside the asserted narrow converse: say why (evidence only)
+							switch {
+							case n.mixedScore[wGPU.count]:
+								c.Count("converse_misses_free_partition_refused_mixed_score_table_policy_"+string(c07PolOf(sh)), 1)
+							case restrict != nil || sh.hints != nil || sh.joint != nil:
+								c.Count("converse_misses_free_partition_refused_constrained_request", 1)
+							default:
+								c.Count("converse_misses_free_partition_refused_other_type_short", 1)
+							}
 						}
 					case sh.plain:
 						c.Count("refusals_checked_against_eligible_count", 1)
